@@ -44,7 +44,7 @@ from diskcache.djangocache import DjangoCache  # noqa: E402
 ID = 'C14'
 COQ_PROP = 'C14'
 LEVEL = 'proof'
-TRANSLATE = ['sql', 'disk', 'fanout', 'django', 'persistent', 'format', 'checkfn']
+TRANSLATE = ['sql', 'disk', 'fanout', 'django', 'persistent', 'format', 'checkfn', 'retry']
 TRUSTED = [
     'a raw sqlite3 connection executing BEGIN IMMEDIATE stands for "another client holds the write lock"; SQLite busy handling with timeout 0',
     'the explicit operation table OPS of harness/props/c14.py is the list of public data operations (administrative calls -- check, stats, reset, '
@@ -793,6 +793,8 @@ def run(ctx, big=False):
                       'timeouts_of_get_with_expire_time_and_tag_returning_the_bare_default': stats.get('bare_default_for_tuple_get', 0),
                       'cases_skipped_for_time': cut, 'exhaustive': bool(thorough) and cut == 0})
     res.extra_private = {'case_records': CASE_RECORDS}
+    import retrycorr
+    res.extra['statement_level_retry_of_init_and_reset'] = retrycorr.run(ctx, res, 300 if ctx.quick and not big else 3000, ctx.seed)
     if not ctx.search_mode:
         correspondence(ctx, res, CASE_RECORDS)
     return res
